@@ -217,6 +217,38 @@ func (x *c12exec) run(e common.Env, p *common.Part) *c12fail {
 					return fail("keygen-refused-or-failed", fmt.Sprintf("KeyGen failed at node %d: %v", u, r.err), timedOut(r.err))
 				}
 			}
+		case "keygen-with-foreign-traffic":
+			// the membership has one more node (40) than the key generation has parties: node 40 and a non-member (77) re-send
+			// everything the first node receives to all participants while the session is live
+			x.pick(tss.DkgTopicName, x.nodes)
+			tap := x.nodes[0]
+			orig := x.c.Schemes[tap]
+			x.c.Net.Attach(tap, simnet.HandlerFunc(func(mm *tss.IncMessage) {
+				if mm.Source != 40 && mm.Source != 77 {
+					for _, v := range x.nodes {
+						x.c.Net.Inject(40, simnet.Outgoing{Dst: v, Type: mm.MsgType, Topic: mm.Topic, Data: mm.Data, Tag: "foreign"})
+						x.c.Net.Inject(77, simnet.Outgoing{Dst: v, Type: mm.MsgType, Topic: mm.Topic, Data: mm.Data, Tag: "foreign"})
+					}
+				}
+				orig.HandleMessage(mm)
+			}))
+			ctx, cancel := context.WithTimeout(context.Background(), x.dl(6000))
+			res := x.calls(x.nodes, func(u uint16) ([]byte, error) { return x.c.Schemes[u].KeyGen(ctx, h.N, h.N-1) })
+			cancel()
+			x.c.Net.Attach(tap, orig)
+			for u, r := range res {
+				if r.err != nil {
+					return fail("foreign-traffic-disturbs", fmt.Sprintf("KeyGen failed at node %d: %v", u, r.err), timedOut(r.err))
+				}
+			}
+			if who, from, bad := foreignHandover(x.c, from, x.nodes); bad {
+				return fail("foreign-traffic-reached-backend", fmt.Sprintf("node %d's protocol instance was handed a message attributed to party %d, which is not a participant of the session", who, from), false)
+			}
+			sc := sessCfg{Callers: x.nodes, Script: c12script}
+			if sig, what := sessionTotality(x.c, sc, sessResult{FromSeq: from, Session: x.c.Session()}); sig != "" {
+				return fail("foreign-traffic-reached-backend/"+sig, what, false)
+			}
+			p.Count("foreign_sessions", 1)
 		case "keygen-missing-caller":
 			callers := x.nodes[:len(x.nodes)-1]
 			ctx, cancel := context.WithTimeout(context.Background(), x.dl(60))
@@ -469,6 +501,9 @@ func (x *c12exec) run(e common.Env, p *common.Part) *c12fail {
 			if w := checkSigs(res, op.Topic); w != "" {
 				return fail("foreign-traffic-disturbs", w, strings.Contains(w, "deadline"))
 			}
+			if who, from, bad := foreignHandover(x.c, from, s); bad {
+				return fail("foreign-traffic-reached-backend", fmt.Sprintf("node %d's protocol instance was handed a message attributed to party %d, which is not a participant of the session", who, from), false)
+			}
 			sc := sessCfg{Callers: s, Sign: true, Script: c12script}
 			if sig, what := sessionTotality(x.c, sc, sessResult{FromSeq: from, Session: x.c.Session()}); sig != "" {
 				return fail("foreign-traffic-reached-backend/"+sig, what, false)
@@ -511,10 +546,10 @@ func genC12(rng *rand.Rand, idx int, e common.Env) c12hist {
 		if h.Mode == "silent" {
 			kinds = []string{"sign-ok", "sign-ok", "sign-two-topics", "sign-with-foreign-traffic", "sign-too-few", "sign-duplicate"}
 			if keygens == 0 {
-				kinds = append(kinds, "keygen-ok")
+				kinds = append(kinds, "keygen-ok", "keygen-with-foreign-traffic")
 			}
 		} else {
-			kinds = []string{"keygen-ok", "keygen-missing-caller", "keygen-cancel", "keygen-cancel-held", "sign-ok", "sign-ok", "sign-too-few", "sign-cancel", "sign-cancel-held",
+			kinds = []string{"keygen-ok", "keygen-with-foreign-traffic", "keygen-missing-caller", "keygen-cancel", "keygen-cancel-held", "sign-ok", "sign-ok", "sign-too-few", "sign-cancel", "sign-cancel-held",
 				"sign-reuse-at-once", "sign-two-topics", "sign-duplicate", "late-replay", "sign-with-foreign-traffic"}
 		}
 		k := kinds[rng.Intn(len(kinds))]
@@ -660,4 +695,18 @@ func unitC12silent(e common.Env, p *common.Part) {
 		p.Sample(map[string]interface{}{"case": key, "second_session_failures": failed})
 		c.Stop()
 	}
+}
+
+// foreignHandover: a hand-over (after log position `from`) attributed to a party that no session participant represents.
+func foreignHandover(c *rcluster, from uint64, participants []uint16) (uint16, uint16, bool) {
+	ok := map[uint16]bool{}
+	for _, u := range participants {
+		ok[c.Cfg.Map[u]] = true
+	}
+	for _, ev := range c.eventsSince(from) {
+		if ev.Kind == simnet.EvOnMsg && !ok[ev.Peer] {
+			return ev.Node, ev.Peer, true
+		}
+	}
+	return 0, 0, false
 }
